@@ -3,7 +3,7 @@
 # quick checks, then restore /repo.  Prints one line per step.  Never commits anything to /repo.
 P="$1"; shift
 # exclusive lock: checks running elsewhere (vp run) wait with their harness build while /repo carries the seeded change
-exec 9>"$HOME/.sccv_repo.lock"; flock 9; export SCCV_REPO_LOCK_HELD=1
+exec 9>"$HOME/.sccv_repo.lock"; flock 9; export SCCV_REPO_LOCK_HELD=1 SCCV_SEEDED_RUN=1
 cd /repo || exit 2
 git diff --quiet || { echo "repo not clean"; exit 2; }
 git apply "$P" || { echo "patch does not apply"; exit 2; }
